@@ -30,6 +30,13 @@ def gen_population(rng, kind, n):
         ll = [off + g(0, s) for _ in range(n)]
         lp = [g(0, 0.3) for _ in range(n)]
         lq = [g(0, 0.3) for _ in range(n)]
+    elif kind == "near-ties":
+        # a proposal that matches the target almost exactly: weights equal to within 1e-4 .. 1e-9 (the spread of the scaled weights
+        # is then far below 1, which a one-pass variance E[s^2] - E[s]^2 cannot resolve)
+        d_ = rng.choice([1e-3, 1e-4, 1e-6, 1e-8])
+        ll = [rng.uniform(-d_, d_) for _ in range(n)]
+        lp = [0.0] * n
+        lq = [0.0] * n
     elif kind == "ties":
         vals = [g(0, 5) for _ in range(rng.choice([1, 2, 3]))]
         ll = [rng.choice(vals) for _ in range(n)]
@@ -105,7 +112,7 @@ def run(ctx):
     NS = nsutil.namespaces()
     sizes = [2, 3, 7, 40] + ([400] if ctx.quick else [400, 2000, 5000])
     reps = 2 if ctx.quick else 6
-    kinds = ["moderate", "large", "offset", "ties", "neginf"]
+    kinds = ["moderate", "large", "offset", "near-ties", "ties", "neginf"]
     tie_ok = {}
     tie_cases = 0
 
@@ -161,7 +168,9 @@ def run(ctx):
                             ctx.violation(f"ess:{kind}:{nsname}:{width}", f"ESS {ess_impl} != (sum w)^2/sum w^2 = {float(ess)}", full)
                         if not (1 - rel_ess <= ess_impl <= n * (1 + rel_ess)):
                             ctx.violation(f"ess-bounds:{kind}:{nsname}:{width}", f"ESS {ess_impl} outside [1,{n}]", full)
-                        if n > 1 and not close(rel_impl, relerr, 20 * rel, 20 * rel):
+                        # relative evidence error: the standard error of the mean of the max-shifted weights over their mean; the
+                        # deviations (s - mean) are exact to ~eps, so an absolute allowance of a few eps plus a relative one
+                        if n > 1 and not close(rel_impl, relerr, (2e-2 if width == "float32" else 1e-6), 64 * eps):
                             ctx.violation(f"rel-error:{kind}:{nsname}:{width}", f"relative evidence error {rel_impl} != {float(relerr)}", full)
                         for nm, v in (("log_evidence", le_impl), ("ess", ess_impl), ("log_evidence_error", rel_impl)):
                             if not math.isfinite(v):
@@ -214,7 +223,7 @@ def run(ctx):
                                 tie("xcompute_weights_ess", close(evx("xcompute_weights_ess", **B), ess_impl, rel), str(case))
                             except Exception as e:
                                 tie("xcompute_weights_log_w", False, f"IR evaluation raised {e!r} on {case}")
-                        if kind in ("moderate", "large", "offset", "ties") and irall:
+                        if kind in ("moderate", "large", "offset", "near-ties", "ties") and irall:
                             tie_cases += 1
                             xs = list(range(n))
                             A = dict(x=xs, ll=nsutil.mpf_list(ll), lp=nsutil.mpf_list(lp), lq=nsutil.mpf_list(lq))
@@ -237,7 +246,7 @@ def run(ctx):
                                 if max(abs(v) for v in lw_impl) < (60 if width == "float32" else 600):
                                     tie("compute_weights_weights", all(close(a, b, rel) for a, b in zip(ev("compute_weights_weights", **B), nsutil.to_list(s.weights))), str(case))
                                     tie("compute_weights_evidence", close(ev("compute_weights_evidence", **B), nsutil.to_float(s.evidence), rel), str(case))
-                                    tie("compute_weights_evidence_error", close(ev("compute_weights_evidence_error", **B), nsutil.to_float(s.evidence_error), 20 * rel, 1e-300), str(case))
+                                    tie("compute_weights_evidence_error", close(ev("compute_weights_evidence_error", **B), nsutil.to_float(s.evidence_error), 20 * rel, 64 * eps * abs(nsutil.to_float(s.evidence)) + 1e-300), str(case))
                                 acc = ev("rejection_accept", log_w=lw_mp, u=[mp.mpf(t) for t in u])
                                 okacc = True
                                 for i in range(n):
